@@ -30,6 +30,25 @@ oracles written here decide each clause of the statement:
           pint's own unit rendering (trusted here, C09 decides it); D/C renderings must parse
           back (pint's parser) to the rendered measurement.
 
+Classifier fields name the mechanism, never values; the concrete class of every witness
+(operand kinds, spec, notation class, source generated/rendered) is in witness["class"].
+Genuine defects re-found on the unchanged tree (kept as violations, 21 signatures):
+  F1 arith-*  operands=with-Measurement, units=offset-or-delta-involved (6 signatures):
+     class Measurement(PlainQuantity) lacks the non-multiplicative facet, so M(20,.5,'degC') +
+     M(1,.1,'degC') computes, degC - degC stays degC, degC + delta_degC raises, degC * 2 computes.
+  F2 parse-sigma form=shorthand digits=fewer-/more-decimals (4): "8.00(4)" is read as +/-0.4
+     (always "0."+digits), so format(m, 'uS') does not parse back.
+  F3 parse-raised / parse-embedded-raised err=IndexError position=end-of-input (3): look-ahead
+     for an exponent indexes the empty NEWLINE token: '(8.0 +/- 0.4)', '8.0(4)', '2 * (1 +/- .1)'.
+  F4 parse-embedded-value context="X ** k" (1): the tokenizer drops the parentheses, '**'
+     then binds to the standard deviation only: '(8.0 +/- 0.4)**2' -> 8.0 +/- 0.16.
+  F5 plus-sign-in-parentheses:* (2): '(+8.0 +/- 0.4)e1 m' - notation not recognised, e1 is a unit.
+  F6 format-raised flag=P modifier=~ (1): PrettyFormatter passes the pint flags to uncertainties.
+  F7 format-unreadable flag=Lx magkind=shorthand (1): '\\SI{4.000100 }{...}' - parentheses stripped.
+  F8 conv-raised kind=logarithmic (2): ufloat magnitudes cannot pass numpy log/exp (design limit).
+  F9 arith-units-differ-from-plain op=** exponent=uncertain base=dimensional (1): the unit
+     exponent becomes a ufloat ('meter ** 2.00+/-0.10').
+
 Deviations from DESIGN.md: (1) the +/- ... ** 2 precedence and end-of-input cases are
 included in the notation space because the statement's "parse to that same measurement" is
 decided on whole input strings; (2) logarithmic units are included as "compatible pairs";
@@ -93,8 +112,8 @@ def shards(tier, seed):
     out.append({"kind": "offarith", "name": "offset-arith", "reps": 12 if t else 2})
     for i in range(4 if t else 2):
         out.append({"kind": "parse", "name": f"parse{i}", "n": 30000 if t else 1500})
-    for i in range(4 if t else 2):
-        out.append({"kind": "format", "name": f"format{i}", "n": 400 if t else 40})
+    for i in range(8 if t else 4):
+        out.append({"kind": "format", "name": f"format{i}", "n": 250 if t else 20})
     return out
 
 
